@@ -32,6 +32,9 @@ var nondetFuncs = map[string]bool{
 }
 
 func checkC13(p *Prog, l *Ledger) {
+	// side effects happen in source order: the initialisers of an object literal run in the order they are written (C12's
+	// literal rule), not in passes chosen by what they look like
+	l.AsOnlyWhere(map[string]string{"C12/S1-literal": "C13/S1-listing-order/literal-order"}, func(o *Obligation) bool { return o.Construct == "eval/ObjectLiteral" }, func() { checkObjectLiteral(p, l) })
 	// "listing the keys of an unmodified object gives the same sequence every time": one pass over the shared ordering
 	// function on every call, nothing remembered between calls (rule of C12)
 	l.AsOnly(map[string]string{"C12/S2-listing": "C13/S1-listing-order"}, func() { checkC12(p, l) })
